@@ -170,7 +170,15 @@ def fam_cv_rwr(rng):
     return lines
 
 
-def fam_cancel_only(rng):
+def fam_cancel_children(rng):
+    """C05: as cancel_only, and the cancel note has children of its own that other threads notify / free while it
+    is being notified: the notifier of n0 — possibly the waiter itself, through the lazy expiry — has to wait for
+    them (WAIT_FOR_NO_CHILDREN releases n0's mutex in the middle of notify and may sleep).  Replayed through the
+    SemWait acceptor only (CvFix and MuC treat the cancel note abstractly and assume the self-notify does not sleep)."""
+    return fam_cancel_only(rng, children=True)
+
+
+def fam_cancel_only(rng, children=False):
     """C05 / C13: waits that ONLY their cancel note (explicit notify, the note's own deadline, or a parent's) or
     their own deadline can end: nobody signals the cv or makes the condition true.  'Once the note is notified the
     call needs no further wake-up': a wait that misses the cancellation stays asleep (stuck)."""
@@ -193,6 +201,15 @@ def fam_cancel_only(rng):
         lines.append("fiber " + " ; ".join(ops))
     tgt = "n1" if parent and rng.random() < 0.5 else "n0"
     lines.append("fiber " + " ; ".join(["yield"] * rng.randrange(0, 5) + ["notify " + tgt]))
+    if children:
+        # the cancel note has children of its own that other threads notify / free while it is being notified: the
+        # notifier of n0 then has to wait for them (WAIT_FOR_NO_CHILDREN releases n0's mutex in the middle of notify)
+        nch = rng.choice([1, 2, 3])
+        for i, l in enumerate(lines):
+            if l.startswith("pre "):
+                lines[i] = l + " ; " + " ; ".join("note_new n%d n0 inf" % (2 + c) for c in range(nch))
+        for c in range(nch):
+            lines.append("fiber " + " ; ".join(["yield"] * rng.randrange(0, 4) + [rng.choice(["notify n%d", "notify n%d", "note_free n%d"]) % (2 + c)]))
     if rng.random() < 0.3:
         lines.append("fiber " + " ; ".join(["yield"] * rng.randrange(0, 3) + ["lock mu0", "rd x0", "unlock mu0", "is_notified n0"]))
     return lines
@@ -449,7 +466,7 @@ except Exception:
     _gm = None
 
 FAMILIES = {"alloc_fail": fam_alloc_fail, "note": _gn.fam_note, "note_f4": _gn.fam_note_f4, "note_f4b": _gn.fam_note_f4b, "note_f7": _gn.fam_note_f7, "refcount": fam_refcount, "starve": fam_starve, "cv_rsignal": fam_cv_rsignal, "ctr": fam_ctr, "once": fam_once, "futex": fam_futex,"core": fam_core, "cv": fam_cv, "cv_raw": fam_cv_raw, "muwait": fam_muwait, "debug": fam_debug,
-            "waitn_cv": fam_waitn_cv, "waitn_rep": fam_waitn_rep, "cv_rwr": fam_cv_rwr, "muc_eqmix": fam_muc_eqmix, "timed_contended": fam_timed_contended, "waitn_mon": fam_waitn_mon, "cancel_only": fam_cancel_only, "mixed": fam_mixed}
+            "waitn_cv": fam_waitn_cv, "waitn_rep": fam_waitn_rep, "cancel_children": fam_cancel_children, "cv_rwr": fam_cv_rwr, "muc_eqmix": fam_muc_eqmix, "timed_contended": fam_timed_contended, "waitn_mon": fam_waitn_mon, "cancel_only": fam_cancel_only, "mixed": fam_mixed}
 
 
 if _gw is not None:
